@@ -28,25 +28,48 @@ Qed.
 (* The bookkeeping invariant.  [all] = tags queued so far, in order.    *)
 Ltac split4 := split; [|split; [|split]].
 
+(* one Pass = the reconnect (when its timer fired on a cut off reconnectable connector), then the rest *)
+Lemma step_pass_split s rc o :
+  step mof qof pq pay s (Pass rc o)
+  = step mof qof pq pay (if rc && cut s && reconn s then reconnect s else s) (Pass false o).
+Proof. reflexivity. Qed.
+
+(* the tag of an original request waiting in .txbs of a cut off connection *)
+Definition pend_tags (s : cstate) : list (option N) :=
+  match pending s with Some (WReq t, _, _) => [Some t] | _ => [] end.
+
 Definition Inv (all : list N) (s : cstate) : Prop :=
   map Some all = map origin (responses s) ++ inflight s ++ map Some (queue s)
   /\ (waited s = false -> redirects s = [])
-  /\ (exists u, map Some (wire_reqs (wire s)) ++ u = map origin (responses s) ++ inflight s
-       /\ (u = [] \/ (sent s = false /\ waited s = true /\ length u = 1%nat)))
+  /\ (map Some (wire_reqs (wire s)) ++ pend_tags s = map origin (responses s) ++ inflight s
+      /\ (pending s <> None -> sent s = false /\ waited s = true))
   /\ (sent s = true -> waited s = true).
 
-Lemma inv_init sec rd m : Inv [] (init_m sec rd m).
+Lemma inv_init rcn sec rd m : Inv [] (init_m rcn sec rd m).
 Proof.
-  unfold Inv, init_m, inflight. cbn.
+  unfold Inv, init_m, inflight, pend_tags. cbn.
   split; [reflexivity|]. split; [reflexivity|]. split; [|discriminate].
-  exists []. split; [reflexivity | now left].
+  split; [reflexivity | congruence].
 Qed.
 
 Lemma inv_enq all s t : Inv all s -> Inv (all ++ [t]) (enq qof s t).
 Proof.
-  intros (H1 & H2 & H3 & H4). unfold Inv, enq, inflight in *. cbn [queue waited latest responses redirects sent wire].
+  intros (H1 & H2 & H3 & H4). unfold Inv, enq, inflight, pend_tags in *.
+  cbn [queue waited latest responses redirects sent wire pending].
   split4; auto.
   rewrite !map_app, H1. cbn [map]. now rewrite <- !app_assoc.
+Qed.
+
+Lemma no_pending_idle all s : Inv all s -> waited s = false -> pending s = None.
+Proof.
+  intros (_ & _ & (_ & P) & _) Hw. destruct (pending s) eqn:E; [|reflexivity].
+  destruct P as [_ X]; [congruence | congruence].
+Qed.
+
+Lemma no_pending_sent all s : Inv all s -> sent s = true -> pending s = None.
+Proof.
+  intros (_ & _ & (_ & P) & _) Hs. destruct (pending s) eqn:E; [|reflexivity].
+  destruct P as [X _]; [congruence | congruence].
 Qed.
 
 Lemma inv_pump all s : Inv all s -> Inv all (pump mof qof pq pay s).
@@ -54,28 +77,28 @@ Proof.
   intros HI. unfold pump.
   destruct (waited s) eqn:Hw; [exact HI|].
   destruct (queue s) as [|t q] eqn:Hq; [exact HI|].
-  destruct HI as (H1 & H2 & (u & H3 & Hu) & H4).
+  pose proof (no_pending_idle all s HI Hw) as Hp.
+  destruct HI as (H1 & H2 & (H3 & P) & H4).
   assert (Hr := H2 Hw).
-  assert (Hu0 : u = []) by (destruct Hu as [|(_ & X & _)]; [assumption | congruence]).
-  subst u. unfold inflight in *. rewrite Hw in *. cbn [List.app] in *. rewrite !app_nil_r in H3.
-  unfold Inv, inflight. cbn [queue waited latest responses redirects sent wire]. rewrite Hr.
+  unfold inflight, pend_tags in *. rewrite Hw, Hp in *. cbn [List.app] in *. rewrite !app_nil_r in H3.
+  unfold Inv, inflight, pend_tags. cbn [queue waited latest responses redirects sent wire pending]. rewrite Hr.
   split4.
   - rewrite H1, Hq. reflexivity.
   - discriminate.
   - destruct (cut s) eqn:Hc; cbv beta iota.
-    + exists [Some t]. split; [now rewrite H3 | right; split; [reflexivity | split; reflexivity]].
-    + exists []. split; [|now left]. rewrite wire_reqs_app, map_app, H3. cbn [wire_reqs on_wire w_item map].
-      now rewrite app_nil_r.
+    + split; [now rewrite H3 | intros _; split; reflexivity].
+    + split; [|congruence]. rewrite wire_reqs_app, map_app, H3. cbn [wire_reqs on_wire w_item map].
+      now rewrite !app_nil_r.
   - reflexivity.
 Qed.
 
 Lemma inv_deliver all s st err c :
   Inv all s -> waited s = true -> sent s = true -> Inv all (deliver s st err c).
 Proof.
-  intros (H1 & H2 & (u & H3 & Hu) & H4) Hw Hs.
-  assert (Hu0 : u = []) by (destruct Hu as [|(X & _)]; [assumption | congruence]). subst u.
-  unfold inflight in *. rewrite Hw in *. rewrite !app_nil_r in H3.
-  unfold Inv, deliver, inflight. cbn [queue waited latest responses redirects sent wire].
+  intros HI Hw Hs. pose proof (no_pending_sent all s HI Hs) as Hp.
+  destruct HI as (H1 & H2 & (H3 & P) & H4).
+  unfold inflight, pend_tags in *. rewrite Hw, Hp in *. rewrite !app_nil_r in H3.
+  unfold Inv, deliver, inflight, pend_tags. cbn [queue waited latest responses redirects sent wire pending]. rewrite Hp.
   assert (E : origin {| e_status := st; e_tag := latest s; e_errored := err; e_history := redirects s;
                         e_target := rq_target s; e_targets := rtargets s; e_pay := rq_pay s |}
               = match redirects s with h :: _ => snd h | [] => latest s end).
@@ -83,7 +106,7 @@ Proof.
   split4.
   - rewrite H1, map_app. cbn [map]. rewrite E. now rewrite <- !app_assoc.
   - reflexivity.
-  - exists []. split; [|now left]. rewrite H3, map_app. cbn [map]. rewrite E. now rewrite !app_nil_r.
+  - split; [|congruence]. rewrite H3, map_app. cbn [map]. rewrite E. now rewrite !app_nil_r.
   - discriminate.
 Qed.
 
@@ -98,40 +121,53 @@ Proof.
   intros HI Hw Hs. unfold complete.
   destruct (redirectable s && is_redirect (rp_status r)); [|now apply inv_deliver].
   destruct (rp_loc r) as [l|]; [|now apply inv_deliver].
-  destruct HI as (H1 & H2 & (u & H3 & Hu) & H4).
-  assert (Hu0 : u = []) by (destruct Hu as [|(X & _)]; [assumption | congruence]). subst u.
-  unfold inflight in *. rewrite Hw in *. rewrite !app_nil_r in H3.
+  pose proof (no_pending_sent all s HI Hs) as Hp.
+  pose proof HI as (H1 & H2 & (H3 & P) & H4).
+  unfold inflight, pend_tags in *. rewrite Hw, Hp in *. rewrite !app_nil_r in H3.
   match goal with |- context [if ?c then _ else _] => destruct c end.
-  - unfold Inv, inflight. cbn [queue waited latest responses redirects sent wire].
+  - unfold Inv, inflight, pend_tags. cbn [queue waited latest responses redirects sent wire pending].
     rewrite head_snoc. cbn [snd]. split4.
     + assumption.
     + discriminate.
-    + exists []. split; [|now left]. rewrite app_nil_r.
-      destruct (cut s || rp_close r); [assumption|].
-      rewrite wire_reqs_app. cbn [wire_reqs on_wire w_item]. now rewrite app_nil_r.
+    + destruct (cut s); cbv beta iota; cbn [negb].
+      * split; [now rewrite app_nil_r | intros _; split; reflexivity].
+      * split; [|congruence]. rewrite wire_reqs_app. cbn [wire_reqs on_wire w_item]. now rewrite !app_nil_r.
     + reflexivity.
   - match goal with |- context [if ?c then _ else _] => destruct c end.
-    { apply inv_deliver; auto. unfold Inv, inflight. rewrite Hw. split4; auto.
-      exists []. rewrite app_nil_r. split; [assumption | now left]. }
-    unfold Inv, inflight. cbn [queue waited latest responses redirects sent wire].
+    { now apply inv_deliver. }
+    unfold Inv, inflight, pend_tags. cbn [queue waited latest responses redirects sent wire pending].
     rewrite head_snoc. cbn [snd]. split4.
     + assumption.
     + discriminate.
-    + exists []. split; [|now left]. rewrite app_nil_r.
-      rewrite wire_reqs_app. cbn [wire_reqs w_item]. now rewrite app_nil_r.
+    + split; [|congruence]. rewrite wire_reqs_app. cbn [wire_reqs w_item]. now rewrite !app_nil_r.
     + reflexivity.
 Qed.
 
-Lemma inv_step all s e :
-  Inv all s -> Inv (all ++ match e with Enq t => [t] | Pass _ => [] end) (step mof qof pq pay s e).
+Lemma inv_reconnect all s : Inv all s -> Inv all (reconnect s).
 Proof.
-  intros HI. destruct e as [t|o]; cbn [step].
-  - now apply inv_enq.
-  - rewrite app_nil_r. pose proof (inv_pump all s HI) as HP.
-    destruct o as [r|]; [|assumption].
-    destruct (waited (pump mof qof pq pay s)) eqn:Hw; [|assumption].
-    destruct (sent (pump mof qof pq pay s)) eqn:Hs; [|assumption].
-    cbn [andb]. destruct (readable (pump mof qof pq pay s) r); [now apply inv_complete | assumption].
+  intros (H1 & H2 & (H3 & P) & H4).
+  unfold Inv, reconnect, inflight, pend_tags in *. cbn [queue waited latest responses redirects sent wire pending].
+  split4; [assumption | assumption | | ].
+  - split; [|congruence]. rewrite app_nil_r.
+    destruct (pending s) as [[[it q] py]|]; [|now rewrite app_nil_r in H3].
+    rewrite wire_reqs_app, map_app. cbn [wire_reqs w_item]. destruct it; cbn [map List.app] in *;
+      [exact H3 | now rewrite !app_nil_r in *].
+  - destruct (pending s) as [x|] eqn:E; [|exact H4]. intros _. apply P. congruence.
+Qed.
+
+Lemma inv_step all s e :
+  Inv all s -> Inv (all ++ match e with Enq t => [t] | _ => [] end) (step mof qof pq pay s e).
+Proof.
+  intros HI. destruct e as [t|rc o|]; [now apply inv_enq| |rewrite app_nil_r; exact HI].
+  rewrite step_pass_split, app_nil_r.
+  assert (HI' : Inv all (if rc && cut s && reconn s then reconnect s else s))
+    by (destruct (rc && cut s && reconn s); [now apply inv_reconnect | exact HI]).
+  revert HI'. generalize (if rc && cut s && reconn s then reconnect s else s). clear HI s. intros s HI.
+  cbn [step andb]. pose proof (inv_pump all s HI) as HP.
+  destruct o as [r|]; [|assumption].
+  destruct (waited (pump mof qof pq pay s)) eqn:Hw; [|assumption].
+  destruct (sent (pump mof qof pq pay s)) eqn:Hs; [|assumption].
+  cbn [andb]. destruct (readable (pump mof qof pq pay s) r); [now apply inv_complete | assumption].
 Qed.
 
 Lemma inv_run : forall evs all s, Inv all s -> Inv (all ++ enqs evs) (run mof qof pq pay s evs).
@@ -139,7 +175,7 @@ Proof.
   induction evs as [|e evs IH]; intros all s HI; cbn [run fold_left enqs].
   - now rewrite app_nil_r.
   - apply (inv_step all s e) in HI. apply IH in HI. fold (run mof qof pq pay (step mof qof pq pay s e) evs).
-    destruct e; cbn [enqs]; [now rewrite <- app_assoc in HI | now rewrite app_nil_r in HI].
+    destruct e; cbn [enqs]; [now rewrite <- app_assoc in HI | now rewrite app_nil_r in HI | now rewrite app_nil_r in HI].
 Qed.
 
 Lemma map_some_inj (a b : list N) : map Some a = map Some b -> a = b.
@@ -159,14 +195,14 @@ Qed.
 
 (* FIFO, one entry per request, at most one in flight; requests reach the wire
    in queue order and at most one of them is unanswered. *)
-Theorem fifo sec rd m evs :
-  let s := run mof qof pq pay (init_m sec rd m) evs in
+Theorem fifo rcn sec rd m evs :
+  let s := run mof qof pq pay (init_m rcn sec rd m) evs in
   map Some (enqs evs) = map origin (responses s) ++ inflight s ++ map Some (queue s)
   /\ (length (inflight s) <= 1)%nat
   /\ (exists rest, enqs evs = wire_reqs (wire s) ++ rest)
   /\ (length (wire_reqs (wire s)) <= length (responses s) + 1)%nat.
 Proof.
-  intros s. destruct (inv_run evs [] (init_m sec rd m) (inv_init sec rd m)) as (H1 & H2 & (u & H3 & Hu) & H4).
+  intros s. destruct (inv_run evs [] (init_m rcn sec rd m) (inv_init rcn sec rd m)) as (H1 & H2 & (H3 & Hu) & H4).
   cbn [List.app] in H1. fold s in H1, H2, H3, Hu, H4.
   split; [exact H1|]. split.
   { unfold inflight. destruct (waited s); cbn [length]; lia. }
@@ -199,7 +235,7 @@ Proof.
   destruct (rp_loc r) as [l|]; [|apply D].
   match goal with |- context [if ?c then _ else _] => destruct c end.
   - split; cbn [https wire]; [assumption|].
-    destruct (cut s || rp_close r); [assumption|]. apply Forall_app. split; [assumption|].
+    destruct (cut s); [assumption|]. apply Forall_app. split; [assumption|].
     constructor; [exact H1 | constructor].
   - destruct (match l_host l with Some _ => l_https l | None => https s end) eqn:E; cbn [negb];
       [rewrite andb_false_r | rewrite andb_true_r, H1; apply D].
@@ -209,13 +245,20 @@ Qed.
 
 Lemma invS_step s e : InvS s -> InvS (step mof qof pq pay s e).
 Proof.
-  intros H. destruct e as [t|o]; cbn [step]; [exact H|].
+  intros H. destruct e as [t|rc o|]; [exact H| |exact H].
+  rewrite step_pass_split.
+  assert (H' : InvS (if rc && cut s && reconn s then reconnect s else s)).
+  { destruct (rc && cut s && reconn s); [|exact H]. destruct H as [H1 H2]. split; [exact H1|].
+    unfold reconnect. cbn [wire https]. destruct (pending s) as [[[it q] py]|]; [|exact H2].
+    apply Forall_app. split; [exact H2|]. constructor; [exact H1 | constructor]. }
+  revert H'. generalize (if rc && cut s && reconn s then reconnect s else s). clear H s. intros s H.
+  cbn [step andb].
   apply invS_pump in H. destruct o as [r|]; [|assumption].
   destruct (waited (pump mof qof pq pay s) && sent (pump mof qof pq pay s) && readable (pump mof qof pq pay s) r); [now apply invS_complete | assumption].
 Qed.
 
-Theorem https_kept rd m evs :
-  let s := run mof qof pq pay (init_m true rd m) evs in
+Theorem https_kept rcn rd m evs :
+  let s := run mof qof pq pay (init_m rcn true rd m) evs in
   https s = true /\ Forall (fun w => w_https w = true) (wire s).
 Proof.
   cbn zeta. unfold run.
@@ -229,7 +272,7 @@ Qed.
 Lemma downgrade_refused s r l h :
   https s = true -> redirectable s = true -> is_redirect (rp_status r) = true ->
   rp_loc r = Some l -> l_host l = Some h -> l_https l = false ->
-  complete s r = deliver s (rp_status r) true (cut s || rp_close r).
+  complete s r = deliver s (rp_status r) true (cut s).
 Proof.
   intros H1 H2 H3 H4 H5 H6. unfold complete. rewrite H2, H3, H4, H5, H6, H1. cbn [andb negb Bool.eqb].
   rewrite andb_false_r. reflexivity.
@@ -282,8 +325,14 @@ Qed.
 
 Lemma invH_step all s e : Inv all s -> InvH s -> InvH (step mof qof pq pay s e).
 Proof.
-  intros HI H. destruct e as [t|o]; cbn [step].
-  - exact H.
+  intros HI H. destruct e as [t|rc o|]; [exact H| |exact H].
+  rewrite step_pass_split.
+  assert (HI' : Inv all (if rc && cut s && reconn s then reconnect s else s))
+    by (destruct (rc && cut s && reconn s); [now apply inv_reconnect | exact HI]).
+  assert (H' : InvH (if rc && cut s && reconn s then reconnect s else s))
+    by (destruct (rc && cut s && reconn s); [exact H | exact H]).
+  revert HI' H'. generalize (if rc && cut s && reconn s then reconnect s else s). clear HI H s. intros s HI H.
+  cbn [step andb].
   - assert (HP : InvH (pump mof qof pq pay s)).
     { unfold pump. destruct (waited s) eqn:Hw; [exact H|]. destruct (queue s); [exact H|].
       destruct HI as (_ & H2 & _). specialize (H2 Hw). destruct H as (A & B & C & D).
@@ -293,13 +342,13 @@ Proof.
     destruct (waited (pump mof qof pq pay s) && sent (pump mof qof pq pay s) && readable (pump mof qof pq pay s) r); [now apply invH_complete | assumption].
 Qed.
 
-Theorem history_attached sec rd m evs :
-  Forall good_entry (responses (run mof qof pq pay (init_m sec rd m) evs)).
+Theorem history_attached rcn sec rd m evs :
+  Forall good_entry (responses (run mof qof pq pay (init_m rcn sec rd m) evs)).
 Proof.
   assert (G : forall evs all s, Inv all s -> InvH s -> InvH (run mof qof pq pay s evs)).
   { induction evs0 as [|e evs0 IH]; intros all s HI H; [assumption|]. cbn [run fold_left].
     fold (run mof qof pq pay (step mof qof pq pay s e) evs0). eapply IH; [eapply inv_step; eassumption | eapply invH_step; eassumption]. }
-  destruct (G evs [] (init_m sec rd m) (inv_init sec rd m)) as (_ & _ & _ & D); [|exact D].
+  destruct (G evs [] (init_m rcn sec rd m) (inv_init rcn sec rd m)) as (_ & _ & _ & D); [|exact D].
   unfold InvH, init_m. cbn. split; [constructor|]. split; [exact I|]. split; [congruence | constructor].
 Qed.
 
@@ -324,7 +373,7 @@ Proof.
   match goal with |- context [if ?c then _ else _] => destruct c end.
   - right. exists l. cbn [redirects responses waited rtargets rq_target sent wire].
     repeat (split; [reflexivity|]). split; [|auto].
-    destruct (cut s || rp_close r); cbn [negb]; [discriminate|]. intros _.
+    destruct (cut s); cbn [negb]; [discriminate|]. intros _.
     eexists. split; [reflexivity|]. split; reflexivity.
   - match goal with |- context [if ?c then _ else _] => destruct c end; [left; eauto|].
     right. exists l. cbn [redirects responses waited rtargets rq_target sent wire].
@@ -353,15 +402,22 @@ Proof.
   destruct H as [H|H]; [apply N.eqb_neq in E; congruence | exact H].
 Qed.
 
-(* tags on the wire were queued before: their qlog entry exists and later queueing cannot change it *)
+(* tags on the wire (or waiting in .txbs) were queued before: their qlog entry exists and later
+   queueing cannot change it *)
+Definition pend_ok (s : cstate) : Prop :=
+  match pending s with
+  | Some (WReq t, q, _) => q = merge (qlookup (qlog s) t) (pq t) /\ In t (map fst (qlog s))
+  | _ => True
+  end.
 Definition InvQ (s : cstate) : Prop :=
   Forall (wire_ok (qlog s)) (wire s)
   /\ Forall (fun w => match w_item w with WReq t => In t (map fst (qlog s)) | WRedir _ => True end) (wire s)
-  /\ Forall (fun t => In t (map fst (qlog s))) (queue s).
+  /\ Forall (fun t => In t (map fst (qlog s))) (queue s)
+  /\ pend_ok s.
 
 Lemma invQ_enq s t : InvQ s -> InvQ (enq qof s t).
 Proof.
-  intros (A & B & C). unfold InvQ, enq. cbn [qlog wire queue]. split; [|split].
+  intros (A & B & C & D). unfold InvQ, enq, pend_ok in *. cbn [qlog wire queue pending]. split4.
   - rewrite Forall_forall in *. intros w Hw. specialize (A w Hw). specialize (B w Hw). unfold wire_ok in *.
     destruct (w_item w); [|exact I]. now rewrite qlookup_app_keep.
   - rewrite Forall_forall in *. intros w Hw. specialize (B w Hw). destruct (w_item w); [|exact I].
@@ -369,42 +425,61 @@ Proof.
   - apply Forall_app. split.
     + rewrite Forall_forall in *. intros x Hx. rewrite map_app. apply in_or_app. left. now apply C.
     + constructor; [|constructor]. rewrite map_app. apply in_or_app. right. now left.
+  - destruct (pending s) as [[[it q] py]|]; [|exact I]. destruct it; [|exact I]. destruct D as [D1 D2].
+    split; [now rewrite qlookup_app_keep | rewrite map_app; apply in_or_app; now left].
+Qed.
+
+Lemma invQ_reconnect s : InvQ s -> InvQ (reconnect s).
+Proof.
+  intros (A & B & C & D). unfold InvQ, reconnect, pend_ok in *. cbn [qlog wire queue pending].
+  split4; [| |assumption|exact I].
+  - destruct (pending s) as [[[it q] py]|]; [|exact A]. apply Forall_app. split; [exact A|].
+    constructor; [|constructor]. unfold wire_ok. cbn [w_item w_q]. destruct it; [now destruct D | exact I].
+  - destruct (pending s) as [[[it q] py]|]; [|exact B]. apply Forall_app. split; [exact B|].
+    constructor; [|constructor]. cbn [w_item]. destruct it; [now destruct D | exact I].
 Qed.
 
 Lemma invQ_step s e : InvQ s -> InvQ (step mof qof pq pay s e).
 Proof.
-  intros H. destruct e as [t|o]; cbn [step]; [now apply invQ_enq|].
+  intros H. destruct e as [t|rc o|]; [now apply invQ_enq| |exact H].
+  rewrite step_pass_split.
+  assert (H' : InvQ (if rc && cut s && reconn s then reconnect s else s))
+    by (destruct (rc && cut s && reconn s); [now apply invQ_reconnect | exact H]).
+  revert H'. generalize (if rc && cut s && reconn s then reconnect s else s). clear H s. intros s H.
+  cbn [step andb].
   assert (HP : InvQ (pump mof qof pq pay s)).
   { unfold pump. destruct (waited s); [exact H|]. destruct (queue s) as [|t q] eqn:Hq; [exact H|].
-    destruct H as (A & B & C). rewrite Hq in C. inversion C as [|? ? Ct Cq]; subst.
-    unfold InvQ. cbn [wire qlog queue]. destruct (cut s); [now repeat split|].
-    split; [|split]; [| |assumption]; (apply Forall_app; split; [assumption|]); (constructor; [|constructor]).
-    - unfold wire_ok, on_wire, sent_q. cbn [w_item w_q]. reflexivity.
-    - cbn [on_wire w_item]. exact Ct. }
+    destruct H as (A & B & C & D). rewrite Hq in C. inversion C as [|? ? Ct Cq]; subst.
+    unfold InvQ, pend_ok. cbn [wire qlog queue pending]. destruct (cut s).
+    - split4; [assumption | assumption | assumption |]. split; [reflexivity | exact Ct].
+    - split4; [| | assumption | exact I]; (apply Forall_app; split; [assumption|]); (constructor; [|constructor]).
+      + unfold wire_ok, on_wire, sent_q. cbn [w_item w_q]. reflexivity.
+      + cbn [on_wire w_item]. exact Ct. }
   destruct o as [r|]; [|assumption].
   destruct (waited (pump mof qof pq pay s) && sent (pump mof qof pq pay s) && readable (pump mof qof pq pay s) r); [|assumption].
   set (p := pump mof qof pq pay s) in *. unfold complete.
   assert (D : forall st e c, InvQ (deliver p st e c)) by (intros; exact HP).
   destruct (redirectable p && is_redirect (rp_status r)); [|apply D].
   destruct (rp_loc r) as [l|]; [|apply D].
-  destruct HP as (A & B & C).
+  destruct HP as (A & B & C & D').
   match goal with |- context [if ?c then _ else _] => destruct c end.
-  - unfold InvQ. cbn [wire qlog queue]. destruct (cut p || rp_close r); [now repeat split|].
-    split; [|split]; [| |assumption]; (apply Forall_app; split; [assumption|]); (constructor; [exact I|constructor]).
+  - unfold InvQ, pend_ok. cbn [wire qlog queue pending]. destruct (cut p).
+    + split4; [assumption | assumption | assumption | exact I].
+    + split4; [| | assumption | exact I]; (apply Forall_app; split; [assumption|]); (constructor; [exact I|constructor]).
   - match goal with |- context [if ?c then _ else _] => destruct c end; [apply D|].
-    unfold InvQ. cbn [wire qlog queue].
-    split; [|split]; [| |assumption]; (apply Forall_app; split; [assumption|]); (constructor; [exact I|constructor]).
+    unfold InvQ, pend_ok. cbn [wire qlog queue pending].
+    split4; [| | assumption | exact I]; (apply Forall_app; split; [assumption|]); (constructor; [exact I|constructor]).
 Qed.
 
-Theorem wire_queries sec rd m evs :
-  let s := run mof qof pq pay (init_m sec rd m) evs in
+Theorem wire_queries rcn sec rd m evs :
+  let s := run mof qof pq pay (init_m rcn sec rd m) evs in
   Forall (wire_ok (qlog s)) (wire s).
 Proof.
   cbn zeta.
   assert (G : forall evs s, InvQ s -> InvQ (run mof qof pq pay s evs)).
   { induction evs0 as [|e evs0 IH]; intros s H; [assumption|]. cbn [run fold_left].
     fold (run mof qof pq pay (step mof qof pq pay s e) evs0). apply IH. now apply invQ_step. }
-  apply G. unfold InvQ, init_m. cbn. repeat split; constructor.
+  apply G. unfold InvQ, init_m, pend_ok. cbn. split4; try constructor.
 Qed.
 
 (* what is recorded when a request is queued: its explicit qargs, else a copy of the requester's
@@ -415,9 +490,13 @@ Proof. reflexivity. Qed.
 
 Lemma qlog_grows s e : exists more, qlog (step mof qof pq pay s e) = qlog s ++ more.
 Proof.
-  destruct e as [t|o]; cbn [step].
+  destruct e as [t|rc o|]; [| |exists []; now rewrite app_nil_r].
   - eexists. apply enq_records.
-  - exists []. rewrite app_nil_r.
+  - exists []. rewrite app_nil_r, step_pass_split.
+    assert (R : qlog (if rc && cut s && reconn s then reconnect s else s) = qlog s)
+      by (destruct (rc && cut s && reconn s); reflexivity).
+    rewrite <- R. generalize (if rc && cut s && reconn s then reconnect s else s). clear R s. intros s.
+    cbn [step andb].
     assert (P : qlog (pump mof qof pq pay s) = qlog s).
     { unfold pump. destruct (waited s); [reflexivity|]. destruct (queue s); reflexivity. }
     destruct o as [r|]; [|exact P].
@@ -438,8 +517,14 @@ Definition InvM (s : cstate) : Prop :=
 
 Lemma invM_step all s e : Inv all s -> InvM s -> InvM (step mof qof pq pay s e).
 Proof.
-  intros HI HM. destruct e as [t|o]; cbn [step].
-  - exact HM.
+  intros HI HM. destruct e as [t|rc o|]; [exact HM| |exact HM].
+  rewrite step_pass_split.
+  assert (HI' : Inv all (if rc && cut s && reconn s then reconnect s else s))
+    by (destruct (rc && cut s && reconn s); [now apply inv_reconnect | exact HI]).
+  assert (H' : InvM (if rc && cut s && reconn s then reconnect s else s))
+    by (destruct (rc && cut s && reconn s); [exact HM | exact HM]).
+  revert HI' H'. generalize (if rc && cut s && reconn s then reconnect s else s). clear HI HM s. intros s HI HM.
+  cbn [step andb].
   - assert (HP : InvM (pump mof qof pq pay s)).
     { unfold pump. destruct (waited s) eqn:Hw; [exact HM|]. destruct (queue s) as [|t q]; [exact HM|].
       destruct HI as (_ & H2 & _). specialize (H2 Hw).
@@ -461,8 +546,8 @@ Proof.
       intros _. split; [reflexivity|]. rewrite head_snoc. cbn [snd]. exact E2.
 Qed.
 
-Theorem method_tracks sec rd m evs :
-  let s := run mof qof pq pay (init_m sec rd m) evs in
+Theorem method_tracks rcn sec rd m evs :
+  let s := run mof qof pq pay (init_m rcn sec rd m) evs in
   waited s = true ->
   rs_method s = rq_method s /\ (forall t, inflight s = [Some t] -> rq_method s = mof t).
 Proof.
@@ -470,16 +555,16 @@ Proof.
   assert (G : forall evs all s, Inv all s -> InvM s -> InvM (run mof qof pq pay s evs)).
   { induction evs0 as [|e evs0 IH]; intros all s HI H; [assumption|]. cbn [run fold_left].
     fold (run mof qof pq pay (step mof qof pq pay s e) evs0). eapply IH; [eapply inv_step; eassumption | eapply invM_step; eassumption]. }
-  apply (G evs [] (init_m sec rd m) (inv_init sec rd m)). intros X. discriminate X.
+  apply (G evs [] (init_m rcn sec rd m) (inv_init rcn sec rd m)). intros X. discriminate X.
 Qed.
 
 (* hence a consumed reply is always readable: no reply is ever left half read or
    over-read because of the method, for every schedule *)
-Corollary always_readable sec rd m evs r :
-  let s := run mof qof pq pay (init_m sec rd m) evs in
+Corollary always_readable rcn sec rd m evs r :
+  let s := run mof qof pq pay (init_m rcn sec rd m) evs in
   waited s = true -> readable s r = true.
 Proof.
-  cbn zeta. intros Hw. destruct (method_tracks sec rd m evs Hw) as [E _].
+  cbn zeta. intros Hw. destruct (method_tracks rcn sec rd m evs Hw) as [E _].
   unfold readable. rewrite E. apply Bool.eqb_reflx.
 Qed.
 
@@ -491,36 +576,52 @@ Definition InvP (s : cstate) : Prop :=
   Forall (fun w => match w_item w with
                    | WReq t => w_pay w = wire_pay mof pay t
                    | WRedir _ => w_pay w = nopay end) (wire s)
-  /\ (waited s = true -> redirects s = [] -> forall t, latest s = Some t -> rq_pay s = pay t).
+  /\ (waited s = true -> redirects s = [] -> forall t, latest s = Some t -> rq_pay s = pay t)
+  /\ match pending s with
+     | Some (WReq t, _, py) => py = wire_pay mof pay t
+     | Some (WRedir _, _, py) => py = nopay
+     | None => True
+     end.
 
 Lemma invP_step s e : InvP s -> InvP (step mof qof pq pay s e).
 Proof.
-  intros H. destruct e as [t|o]; cbn [step]; [exact H|].
+  intros H. destruct e as [t|rc o|]; [exact H| |exact H].
+  rewrite step_pass_split.
+  assert (H' : InvP (if rc && cut s && reconn s then reconnect s else s)).
+  { destruct (rc && cut s && reconn s); [|exact H]. destruct H as (A & B & C).
+    unfold InvP, reconnect. cbn [wire waited redirects latest rq_pay pending]. split; [|split; [exact B | exact I]].
+    destruct (pending s) as [[[it q] py]|]; [|exact A]. apply Forall_app. split; [exact A|].
+    constructor; [|constructor]. cbn [w_item w_pay]. destruct it; exact C. }
+  revert H'. generalize (if rc && cut s && reconn s then reconnect s else s). clear H s. intros s H.
+  cbn [step andb].
   assert (HP : InvP (pump mof qof pq pay s)).
   { unfold pump. destruct (waited s); [exact H|]. destruct (queue s) as [|t q]; [exact H|].
-    destruct H as [A B]. unfold InvP. cbn [wire waited redirects latest rq_pay]. split.
+    destruct H as (A & B & C). unfold InvP. cbn [wire waited redirects latest rq_pay pending]. split; [|split].
     - destruct (cut s); [exact A|]. apply Forall_app. split; [exact A|]. constructor; [reflexivity|constructor].
-    - intros _ _ t' E. now inversion E. }
+    - intros _ _ t' E. now inversion E.
+    - destruct (cut s); [reflexivity | exact I]. }
   destruct o as [r|]; [|assumption].
   destruct (waited (pump mof qof pq pay s) && sent (pump mof qof pq pay s) && readable (pump mof qof pq pay s) r); [|assumption].
-  set (p := pump mof qof pq pay s) in *. destruct HP as [A B]. unfold complete.
+  set (p := pump mof qof pq pay s) in *. destruct HP as (A & B & C). unfold complete.
   assert (D : forall st e c, InvP (deliver p st e c)).
-  { intros. split; [exact A|]. cbn [waited]. discriminate. }
+  { intros. split; [exact A|]. split; [cbn [waited]; discriminate | exact C]. }
   destruct (redirectable p && is_redirect (rp_status r)); [|apply D].
   destruct (rp_loc r) as [l|]; [|apply D].
   match goal with |- context [if ?c then _ else _] => destruct c end.
-  - unfold InvP. cbn [wire waited redirects latest rq_pay]. split.
-    + destruct (cut p || rp_close r); [exact A|]. apply Forall_app. split; [exact A|].
+  - unfold InvP. cbn [wire waited redirects latest rq_pay pending]. split; [|split].
+    + destruct (cut p); [exact A|]. apply Forall_app. split; [exact A|].
       constructor; [reflexivity|constructor].
     + intros _ _ t' E. discriminate E.
+    + destruct (cut p); [reflexivity | exact I].
   - match goal with |- context [if ?c then _ else _] => destruct c end; [apply D|].
-    unfold InvP. cbn [wire waited redirects latest rq_pay]. split.
+    unfold InvP. cbn [wire waited redirects latest rq_pay pending]. split; [|split].
     + apply Forall_app. split; [exact A|]. constructor; [reflexivity|constructor].
     + intros _ _ t' E. discriminate E.
+    + exact I.
 Qed.
 
-Theorem wire_payload sec rd m evs :
-  let s := run mof qof pq pay (init_m sec rd m) evs in
+Theorem wire_payload rcn sec rd m evs :
+  let s := run mof qof pq pay (init_m rcn sec rd m) evs in
   Forall (fun w => match w_item w with
                    | WReq t => w_pay w = wire_pay mof pay t
                    | WRedir _ => w_pay w = nopay end) (wire s)
@@ -530,7 +631,8 @@ Proof.
   assert (G : forall evs s, InvP s -> InvP (run mof qof pq pay s evs)).
   { induction evs0 as [|e evs0 IH]; intros s H; [assumption|]. cbn [run fold_left].
     fold (run mof qof pq pay (step mof qof pq pay s e) evs0). apply IH. now apply invP_step. }
-  apply G. unfold InvP, init_m. cbn. split; [constructor | discriminate].
+  destruct (G evs (init_m rcn sec rd m)) as (A & B & _); [|split; assumption].
+  unfold InvP, init_m. cbn. split; [constructor | split; [discriminate | exact I]].
 Qed.
 
 End WithMethods.
